@@ -6,5 +6,42 @@ package coordinator
 
 //@ func ReadLV
 //@   props C15
+//@   requires r != nil
 //@   alloc_bound 1073741824
 //@   ensures bounded_frame: result1 == nil ==> len(result0) < 1073741824
+
+//@ func ReadType
+//@   props C15
+//@   requires r != nil
+
+//@ func ReadTLV
+//@   props C15
+//@   requires r != nil
+//@   ensures bounded_frame: result2 == nil ==> len(result1) < 1073741824
+
+//@ func WriteType
+//@   props C15
+//@   requires w != nil
+
+//@ func WriteLV
+//@   props C15
+//@   requires w != nil
+
+//@ func WriteTLV
+//@   props C15
+//@   requires w != nil
+
+//@ func EncodeLV
+//@   props C15
+//@   requires w != nil
+//@   requires v != nil
+
+//@ func EncodeTLV
+//@   props C15
+//@   requires w != nil
+//@   requires v != nil
+
+//@ func (*WriteShardRequest).unmarshalPoints
+//@   props C15
+//@   loop 1 invariant filled: all(k, 0, len(points), points[k] != nil)
+//@   ensures no_nil: all(k, 0, len(result), result[k] != nil)
